@@ -35,8 +35,12 @@ def collect(tier, tag, seeds="AllSeeds"):
         states, r = generate(tag, 1, seeds)
         st = {"states": r["states"], "distinct": r["distinct"], "depth": 1}
     else:
-        states, r = generate(tag, 2, "AllSeeds")
-        st = {"states": r["states"], "distinct": r["distinct"], "depth": 2}
+        # every pair of rewrites from the hand-picked seeds, every single rewrite from the twin seeds (two rewrites from each of
+        # them would be some 3 * 10^5 programs), and random walks of six rewrites from all seeds
+        states, r = generate(tag, 2, "HandOnly")
+        one, r1 = generate(tag + "-twins", 1, "AllSeeds")
+        states += [x for x in one if x["seed"] > max(y["seed"] for y in states)]
+        st = {"states": r["states"] + r1["states"], "distinct": r["distinct"] + r1["distinct"], "depth": 2}
         sim, sr = generate(tag + "-sim", 6, "AllSeeds", simulate=400)
         states += sim
         st["states"] += sr["states"]
